@@ -97,6 +97,54 @@ func diffHelpers(c *Ctx) {
 			}
 			return true
 		})
+		// both directions are always computed: no return before the scans that fill the added and
+		// the removed result have run (an "nothing new, so nothing removed" shortcut reasons about
+		// lengths, which only holds for duplicate-free lists)
+		{
+			var lastFill token.Pos
+			resultNames := map[string]bool{}
+			if d.fd.Type.Results != nil {
+				for _, f := range d.fd.Type.Results.List {
+					for _, nm := range f.Names {
+						resultNames[nm.Name] = true
+					}
+				}
+			}
+			for _, st := range d.fd.Body.List {
+				loop, isLoop := st.(*ast.RangeStmt)
+				if !isLoop {
+					continue
+				}
+				fills := false
+				ast.Inspect(loop.Body, func(x ast.Node) bool {
+					if as, ok := x.(*ast.AssignStmt); ok {
+						for _, l := range as.Lhs {
+							if o := baseObj(d, l); o != nil && resultNames[o.Name()] {
+								fills = true
+							}
+						}
+					}
+					return true
+				})
+				if fills && loop.End() > lastFill {
+					lastFill = loop.End()
+				}
+			}
+			early := token.NoPos
+			ast.Inspect(d.fd.Body, func(x ast.Node) bool {
+				rs, ok := x.(*ast.ReturnStmt)
+				if !ok || !lastFill.IsValid() || rs.Pos() > lastFill {
+					return true
+				}
+				// inside one of the fill loops a return would be a truncating exit as well
+				early = rs.Pos()
+				return true
+			})
+			if lastFill.IsValid() {
+				c.check(!early.IsValid(), R, fname+"#both-scans", c.P.Pos(early), "no return before both result scans have run",
+					fmt.Sprintf("%s returns before the scans filling its added and removed results have both run: a removal (or addition) is not reported whenever the shortcut's length argument fails, e.g. with a repeated element", fname))
+			}
+		}
 		c.check(bad == "", R, fname+"#set-semantics", c.P.Pos(pos), "membership tests only",
 			fmt.Sprintf("%s: %s — elements are matched as a multiset, so lists that are equal as sets (a repeated entry) are reported as different", fname, bad))
 		// added ← second operand \ first ; removed ← first \ second
